@@ -544,17 +544,17 @@ func run(a *hlib.Args, e *hlib.Emitter) error {
 	for i := 0; i < a.N; i++ {
 		class := "wf"
 		switch {
-		case i%7 == 3:
+		case i%4 == 3:
 			class = "reject"
 		case i%11 == 5:
 			class = "dupnet"
-		case i == 9:
+		case i == 6:
 			class = "empty"
 		}
 		file := genSmallFile(r, class)
 		cfgName := []string{"v1", "v2"}[i%2]
 		// a Builder costs about 1 GB of zeroed memory and a child process a second: few of them in the quick tier
-		sets := pickSettings(r, cfgOf(cfgName), perCase, thorough || i%3 == 0 || class == "reject", thorough || i%3 == 1)
+		sets := pickSettings(r, cfgOf(cfgName), perCase, thorough || i%3 == 0, thorough || i%3 == 1)
 		c, err := runCompileCase(a.Scratch, class, cfgName, file, sets, true, ncpu)
 		if err != nil {
 			return err
